@@ -66,3 +66,8 @@ def c20_peek_low_level(frame_type, channel, payload, rest):
     wire = frame._marshal(frame_type, channel, payload)
     t, ch, size = frame.frame_parts(wire + rest)
     return t, ch, size, len(wire)
+
+
+def c01_roundtrip(frame_value, channel, rest):
+    data = frame.marshal(frame_value, channel)
+    return data, frame.unmarshal(data + rest)
